@@ -65,8 +65,9 @@ def queries(root):
     return q
 
 
-def git_ignored(base, lists):
+def git_ignored(base, lists, files=None, dirs=None):
     """For every pattern list: set of REAL_FILES paths that git ignores (patterns relative to the tree root)."""
+    REAL_FILES, DIRS = (files, dirs or []) if files is not None else (globals()["REAL_FILES"], globals()["DIRS"])
     repo = os.path.join(base, "gitrepo")
     os.makedirs(repo, exist_ok=True)
     subprocess.run([GIT, "init", "-q", repo], check=True, capture_output=True)
@@ -178,6 +179,49 @@ def judge(root, pats, ignored, qs):
     return bad
 
 
+TWO = ("d", "ext")       # a code base made of two directories: patterns apply relative to the directory that holds the file
+
+
+def _work_two(lists):
+    """CodeBase(root/d, root/ext, exclude_patterns=P): membership of every file of the tree and the enumeration."""
+    from codebasin import CodeBase
+
+    base = env.fresh_dir("c09t")
+    root = make_tree(base)
+    sub = {t: [rel[len(t) + 1:] for rel in REAL_FILES if rel.startswith(t + "/")] for t in TWO}
+    ign = {t: git_ignored(base, lists, sub[t], [d[len(t) + 1:] for d in DIRS if d.startswith(t + "/")]) for t in TWO}
+    out = []
+    n = 0
+    for i, pats in enumerate(lists):
+        try:
+            cb = CodeBase(*[os.path.join(root, t) for t in TWO], exclude_patterns=list(pats))
+            listed = {os.path.relpath(os.path.realpath(p), os.path.realpath(root)) for p in cb}
+        except Exception as e:  # noqa
+            out.append(Failure("two-directories", {"patterns": list(pats), "directories": list(TWO)}, observed=f"{type(e).__name__}: {e}"))
+            continue
+        exp = set()
+        bad = []
+        for rel in REAL_FILES:
+            n += 1
+            t = next((t for t in TWO if rel.startswith(t + "/")), None)
+            inner = rel[len(t) + 1:] if t else None
+            e = bool(t) and os.path.splitext(rel)[1] in SRC_EXT and inner not in ign[t][i]
+            if e:
+                exp.add(rel)
+            try:
+                g = bool(os.path.join(root, rel) in cb)
+            except Exception as ex:  # noqa
+                g = f"EXC {type(ex).__name__}"
+            if g != e and not (t and attributable(pats, inner, ign[t][i], e, g)):
+                bad.append((rel, e, g))
+        extra = {x for x in listed - exp if not any(x.startswith(t + "/") and attributable(pats, x[len(t) + 1:], ign[t][i], False, True) for t in TWO)}
+        if bad or extra or not exp <= listed:
+            out.append(Failure("two-directories", {"patterns": list(pats), "directories": list(TWO)},
+                               expected={"members": sorted(exp)[:12]}, observed={"contains": bad[:6], "listed_but_not_member": sorted(extra)[:6], "member_but_not_listed": sorted(exp - listed)[:6]}))
+    shutil.rmtree(base, ignore_errors=True)
+    return n, out[:10]
+
+
 def _work(arg):
     lists, tag = arg
     base = env.fresh_dir("c09")
@@ -251,8 +295,14 @@ def run(tier):
     res = par.pmap(_work, [(c, i) for i, c in enumerate(chunks)])
     for r in res:
         rep.add(r[3])
+    two_lists = [[]] + [[p] for p in POOL] + [[p, q] for p in POOL3 for q in POOL3] + [["/a.c", "e/b.c"], ["/e/", "!/e/b.c"], ["d/"], ["ext/"], ["/s1.F", "*.h"]]
+    res2 = par.pmap(_work_two, [two_lists[i:i + 24] for i in range(0, len(two_lists), 24)])
+    for r in res2:
+        rep.add(r[1])
+    rep.coverage["two_directory_lists"] = len(two_lists)
+    rep.coverage["two_directory_evaluations"] = sum(r[0] for r in res2)
     rep.coverage.update({
-        "evaluations": sum(r[1] for r in res), "distinct_nontrivial": sum(r[0] for r in res),
+        "evaluations": sum(r[1] for r in res) + sum(r[0] for r in res2), "distinct_nontrivial": sum(r[0] for r in res),
         "rule": "pattern lists: [], every single pattern and every ordered pair over a pool of %d patterns%s, + extension triples starting with %r; "
                 "each list is queried with %d path spellings plus list(CodeBase); non-trivial/distinct = pattern lists" % (
                     len(POOL), " + all triples over a 12-pattern sub-pool" if tier == "thorough" else "", first, len(queries("/r"))),
